@@ -61,6 +61,22 @@ def gen(ctx):
     yield dict(kind="ev1", hist=[[0, 0, 0, 0, 1, 0, 0, 0]], dtype="int32", scale=1, r=1, rule="nks:4", memo="True", pred="fixedpoint", fuel=FUEL)
     for _ in range(ctx.n(500, 5000)):
         yield rand_case(rng)
+    # states of large magnitude that keep moving by a few units per step: "unchanged" must mean equal, not close
+    for _ in range(ctx.n(60, 600)):
+        N = rng.randint(2, 9)
+        k = rng.randint(2, 4)
+        base = rng.choice([10 ** 5, 10 ** 6, 3 * 10 ** 7, 10 ** 9])
+        dtype = rng.choice(["int64", "int64", "float64"])
+        c = dict(kind="ev1", hist=[[base + rng.randrange(k) for _ in range(N)]], dtype=dtype, scale=1, r=1,
+                 rule=rng.choice(["hash:%d:3:1:%d" % (k, base), "probe:%d:2:1:%d" % (k, base), "counter:%d:%d" % (k, base)]),
+                 memo="False", pred="fixedpoint", fuel=FUEL)
+        if c["rule"].startswith("hash"):
+            c["memo"] = rng.choice(["False", "True", "recursive_lit"])
+        yield c
+    # slowly converging float automata (oracle only: inexact arithmetic)
+    for _ in range(ctx.n(20, 200)):
+        yield dict(kind="slow", dim=rng.choice([1, 2]), N=rng.randint(2, 6), dtype=rng.choice(["float64", "float32"]),
+                   memo=rng.choice(["False", "True", "recursive_lit"]), seed=rng.randrange(10 ** 6))
     try:
         from . import c06_2d
         yield from c06_2d.gen(ctx)
@@ -76,6 +92,8 @@ def _mod(c):
 
 
 def line(c):
+    if c["kind"] == "slow":
+        return None
     m = _mod(c)
     return m.line(c) if m else ev1.line(c)
 
@@ -94,7 +112,22 @@ def run_capped(c):
     return ca, rule, pred, res, None
 
 
+def run_slow(c):
+    """A float automaton that halves towards zero: it reaches an exact fixed point only after many tiny steps."""
+    import cellpylib as cpl
+    rng = np.random.RandomState(c["seed"])
+    memo = ev1.memo_value(c["memo"])
+    rule = lambda n, cc, t: float(np.asarray(n).ravel()[np.asarray(n).size // 2]) / 2.0        # noqa: E731
+    if c["dim"] == 1:
+        ca = (rng.random_sample((1, c["N"])) + 0.5).astype(c["dtype"])
+        return ca, cpl.evolve(ca, timesteps=cpl.until_fixed_point(), apply_rule=rule, r=1, memoize=memo)
+    ca = (rng.random_sample((1, c["N"], c["N"])) + 0.5).astype(c["dtype"])
+    return ca, cpl.evolve2d(ca, timesteps=cpl.until_fixed_point(), apply_rule=rule, r=1, memoize=memo)
+
+
 def impl(c):
+    if c["kind"] == "slow":
+        return "n/a"
     m = _mod(c)
     if m:
         return m.impl(c)
@@ -113,6 +146,17 @@ def compare(c, a, b):
 
 
 def oracle(c):
+    if c["kind"] == "slow":
+        ca, res = run_slow(c)
+        rows = [r.tobytes() for r in res]
+        if len(rows) < 2:
+            return "until_fixed_point declined at once"
+        if rows[-1] != rows[-2]:
+            return "until_fixed_point stopped after %d steps although the last two states still differ (%s, %dD)" % (len(rows) - 1, c["dtype"], c["dim"])
+        for i in range(1, len(rows) - 1):
+            if rows[i] == rows[i - 1]:
+                return "until_fixed_point ran past the first unchanged step"
+        return None
     m = _mod(c)
     if m:
         return m.oracle(c)
@@ -158,7 +202,7 @@ def oracle(c):
 
 
 def nontrivial(c, ans):
-    return ans.startswith("ok")
+    return c["kind"] == "slow" or ans.startswith("ok")
 
 
 shrink = c03.shrink
